@@ -327,7 +327,8 @@ def menu(kind, shape, ext, grow):
         if d <= 2:
             evs.append(["mkprod", "right"])
             evs.append(["mkprod", "left"])
-    _MENU[key] = evs
+    if not ext:
+        _MENU[key] = evs        # extended menus are large (thousands of events) and used once per walk: not cached
     return evs
 
 
